@@ -141,6 +141,36 @@ pub fn replay(args: &[String]) -> i32 {
                 out.line(&json!({"kind": "mismatch", "case": c, "form": form, "observed": ob}));
             }
         }
+        // an exchange addressed outside either genome is an error however far outside: the refused
+        // cases again with indices / range ends at the top of usize (both genomes must stay untouched)
+        if (op == "xgene" || op == "xsegment") && arr(&c["allowed"]).len() == 1 && c["allowed"][0]["k"] == "err" {
+            let mut a = bits(&case["a"]);
+            let mut b = bits(&case["b"]);
+            let far: Vec<(usize, usize)> = if op == "xgene" {
+                vec![(usize::MAX, 0), (usize::MAX - 1, 0), (1 << 63, 0)]
+            } else {
+                let lo = u(&case["lo"]) as usize;
+                vec![(lo, usize::MAX), (usize::MAX, usize::MAX), (usize::MAX - 1, usize::MAX), (usize::MAX, lo), (0, 1 << 63)]
+            };
+            for (x, y) in far {
+                n += 1;
+                let r = guarded(|| {
+                    #[allow(clippy::reversed_empty_ranges)]
+                    if op == "xgene" { a.crossover_gene(&mut b, x).is_ok() } else { a.crossover_segment(&mut b, x..y).is_ok() }
+                });
+                let untouched = json!(bits_json(&a)) == case["a"] && json!(bits_json(&b)) == case["b"];
+                if r != Ok(false) || !untouched {
+                    bad += 1;
+                    let mut cc = c.clone();
+                    cc["case"]["far"] = json!([x.to_string(), y.to_string()]);
+                    out.line(&json!({"kind": "mismatch", "case": cc, "form": op, "observed": match r {
+                        Ok(ok) => json!({"k": if ok { "ok" } else { "err" }, "a": bits_json(&a), "b": bits_json(&b)}),
+                        Err(m) => json!({"k": "panic", "msg": m}),
+                    }}));
+                    break;
+                }
+            }
+        }
     }
     out.line(&json!({"kind": "summary", "cases": n, "mismatches": bad}));
     out.finish();
